@@ -73,6 +73,9 @@ def unexpected_kinds(case):
 
 def compare_to_reference(case, ref, obs, config):
     """None or (what, description). Asks exactly what C08 states."""
+    if obs["status"] == "pending" and obs.get("stuck"):
+        return ("never-completes", "the coroutine resolver of %r was invoked but never STARTED while an earlier sibling is pending: "
+                "the schedule that completes it first cannot happen (siblings are not gathered concurrently)" % (obs["stuck"],))
     if obs["status"] in ("pending", "hang"):
         return ("never-completes", "overall result still pending after every resolver task completed"
                 if obs["status"] == "pending" else "execution blocks (watchdog)")
@@ -520,6 +523,8 @@ def real_pool_stage(ctx, prop, extra_oracle=None, n_random=4, kinds=None):
             cfg = "threadpool-real-w%d" % workers
             detail = {"case": case, "config": cfg, "schedule": None, "document": W.document(case)}
             feats = "+".join(sorted(W.features(case)))
+            if "completion-raises-after-sub-resolvers" in W.features(case):
+                feats = "completion-raises-after-sub-resolvers"      # the known class keeps one stable signature
             try:
                 schema, doc = W.prepared(case)
                 try:
@@ -715,8 +720,31 @@ def _plain_fail(x):
     raise W._resolver_error_cls()("inner failure %r" % (x,))
 
 
+def _plain_kw(x, key=1, *, only=0, **more):
+    if key < 0:
+        raise W._resolver_error_cls()("negative key %r" % (key,))
+    return x * key + only + sum(more.values())
+
+
 def _r_submit(root, ctx, info, **kw):
     return info.runtime.submit(_plain_value, 21)
+
+
+def _r_submit_kw(root, ctx, info, **kw):
+    # positional + keyword + keyword-only + extra keyword arguments: 3*7 + 100 + 1000
+    return info.runtime.submit(_plain_kw, 3, key=7, only=100, extra=1000)
+
+
+def _r_submit_kw_fail(root, ctx, info, **kw):
+    return info.runtime.submit(_plain_kw, 3, key=-1)       # the keyword argument decides: ResolverError
+
+
+def _r_wrap_callable_kw(root, ctx, info, **kw):
+    return info.runtime.wrap_callable(_plain_kw)(2, key=5, only=1)
+
+
+def _r_submit_all_kw(root, ctx, info, **kw):
+    return info.runtime.submit(_plain_kw, x=4, key=2)
 
 
 def _r_submit_fail(root, ctx, info, **kw):
@@ -744,12 +772,13 @@ def _r_plain(root, ctx, info, **kw):
     return 1
 
 
-RUNTIME_API_SDL = ("type Query { s: Int f: Int w: Int c: Int g: Int p: Int o: O } "
-                   "type O { s: Int f: Int w: Int c: Int g: Int p: Int } "
-                   "type Mutation { s: Int f: Int w: Int c: Int g: Int p: Int }")
+RUNTIME_API_SDL = ("type Query { s: Int f: Int w: Int c: Int g: Int p: Int k: Int e: Int d: Int a: Int o: O } "
+                   "type O { s: Int f: Int w: Int c: Int g: Int p: Int k: Int e: Int d: Int a: Int } "
+                   "type Mutation { s: Int f: Int w: Int c: Int g: Int p: Int k: Int e: Int d: Int a: Int }")
 RUNTIME_API_QUERIES = (
     "{ s }", "{ f }", "{ w }", "{ c }", "{ g }", "{ p s f w c g }", "{ o { s f w c g p } p }", "{ o { f } s o2: o { s w } }",
     "mutation { s f w }", "mutation { f p c g s }", "mutation { ...T } fragment T on Mutation { w f s }",
+    "{ k }", "{ e }", "{ d }", "{ a }", "{ k e d a }", "{ o { k e d a } s }", "mutation { k e d a }",
 )
 
 
@@ -769,7 +798,8 @@ def runtime_api_stream(ctx):
     from py_gql.execution.runtime import AsyncIORuntime, BlockingRuntime, ThreadPoolRuntime
 
     schema = build_schema(RUNTIME_API_SDL)
-    table = {"s": _r_submit, "f": _r_submit_fail, "w": _r_wrapped, "c": _r_wrap_callable, "g": _r_gather, "p": _r_plain}
+    table = {"s": _r_submit, "f": _r_submit_fail, "w": _r_wrapped, "c": _r_wrap_callable, "g": _r_gather, "p": _r_plain,
+             "k": _r_submit_kw, "e": _r_submit_kw_fail, "d": _r_wrap_callable_kw, "a": _r_submit_all_kw}
     for tname in ("Query", "O", "Mutation"):
         for fname, fn in table.items():
             schema.register_resolver(tname, fname, fn)
@@ -832,7 +862,7 @@ def runtime_api_stream(ctx):
             ctx.count()
             n += 1
             if got != ref:
-                ctx.fail("c08:runtime-api:%s:%s-vs-%s:%s" % (cfg, ref[0], got[0], "+".join(sorted(set(c for c in query if c in "sfwcgpo")))),
+                ctx.fail("c08:runtime-api:%s:%s-vs-%s:%s" % (cfg, ref[0], got[0], "+".join(sorted(set(c for c in query if c in "sfwcgpokeda")))),
                          "runtime API used inside plain resolvers: %s gives %s, BlockingExecutor gives %s" % (cfg, got, ref),
                          {"query": query, "config": cfg, "blocking": ref, "got": got, "stream": "runtime-api"})
     ctx.extra["runtime_api_runs"] = n
